@@ -387,7 +387,43 @@ def stage_e2e_bytes(ctx):
                              "values": "a<b>z, <b>z, a<b> for every byte b outside {NUL, TAB, LF, CR, space, '\"', '#', '\\'} and %d multi-byte letters" % len(E2E_LETTERS)}
 
 
-STAGES = [stage_unescape, stage_appendparam, stage_scanquoted, stage_e2e, stage_e2e_bytes]
+def stage_e2e_value(ctx):
+    """what is written in quotes is what the CATALOG has (not only what the directive holds): title, version, base URL, query
+    example, JSON-RPC method name and path with blanks at either end, doubled blanks inside, no-break spaces"""
+    if ctx.replay is not None and ctx.replay.get("stage") != "e2e-value":
+        return
+    import json as _json
+    from .. import proj as P
+    vals = [b" Pets", b"Pets ", b"\tPets", b"Pets\t", b" Pets \t", b"a  b", b"  a  ", b"\xc2\xa0Pets\xc2\xa0", b"Pets\xe3\x80\x80", b"x", b" x", b"# not a comment ", b" // x "]
+    slots = [(b"JSIGHT 0.3\nINFO\n  Title {V}\n", lambda j: j.get("info", {}).get("title")),
+             (b"JSIGHT 0.3\nINFO\n  Title \"t\"\n  Version {V}\n", lambda j: j.get("info", {}).get("version")),
+             (b"JSIGHT 0.3\nSERVER @s\n  BaseUrl {V}\n", lambda j: j.get("servers", {}).get("@s", {}).get("baseUrl")),
+             (b"JSIGHT 0.3\nGET /c\n  Query {V}\n    {}\n  200 any\n", lambda j: j.get("interactions", {}).get("http GET /c", {}).get("query", {}).get("example")),
+             (b"JSIGHT 0.3\nURL /r\n  Protocol json-rpc-2.0\n  Method {V}\n", lambda j: next((i.get("method") for i in j.get("interactions", {}).values()), None)),
+             (b"JSIGHT 0.3\nGET {V}\n  200 any\n", lambda j: next((i.get("path") for i in j.get("interactions", {}).values()), None))]
+    cases = []
+    for si, (tpl, get) in enumerate(slots):
+        for v in vals:
+            vv = (b"/p" + v) if si == 5 else v
+            cases.append((tpl.replace(b"{V}", DQ + vv + DQ), vv, get))
+    outs = C.run_sharded("harness", "fn", [P.run_line("out=json", [("a.jst", d)]) for d, _, _ in cases])
+    ctx.res.count(len(cases))
+    n_ok = 0
+    for (d, v, get), o in zip(cases, outs):
+        st, dd = P.parse(o)
+        if st != "ok":
+            if v.strip(b" \t") != b"":
+                ctx.spec_bad.append(("e2e-value", d, "the quoted value %r is refused: %s" % (v, o[:100]), "accepted", o[:120], "unescape_quote (end to end)"))
+            continue
+        got = get(_json.loads(C.unhx(dd["json"])))
+        n_ok += 1
+        ctx.res.nontrivial(("e2e-value", d))
+        if got != v.decode("utf-8"):
+            ctx.spec_bad.append(("e2e-value", d, "the value written %r is %r in the catalog" % (v, got), v.decode("utf-8"), repr(got), "unescape_quote (end to end)"))
+    ctx.dist["e2e-value"] = {"documents": len(cases), "accepted": n_ok, "values": len(vals), "slots": len(slots)}
+
+
+STAGES = [stage_unescape, stage_appendparam, stage_scanquoted, stage_e2e, stage_e2e_bytes, stage_e2e_value]
 
 
 def run(res, tier, seed, replay):
